@@ -61,6 +61,7 @@ def resolve_local(p, e):
 @rule("R18.3", "C18", "failure isolation: catch-all around the whole per-part loop; failed entry = fresh record with no trees + error name; success = one tree per part, in order", min_instances=6)
 def r18_3(ctx):
     idx = get_index(ctx.env)
+    failure_record_is_total(ctx)
     fi = idx.func("parse_single")
     ps = paths_of(fi.node)
     rets = [p for p in ps if p.outcome == "return"]
@@ -207,6 +208,21 @@ def r18_2(ctx):
     ctx.check("result dictionary is filled only from task results", not other_stores, "no other stores", str(other_stores), fn_where(idx, fi))
     rets = [n for n in ast.walk(fn) if isinstance(n, ast.Return)]
     ctx.check("parse returns the result dictionary", len(rets) == 1 and U(rets[0].value) == res_name, f"return {res_name}", str([U(r.value) for r in rets]), fn_where(idx, fi))
+
+
+def failure_record_is_total(ctx):
+    """building the failure record must not fail itself: ParserException.__init__ runs inside the worker's except handler, an
+    exception there escapes the worker and aborts the whole pool run.  It may only use what every exception has."""
+    idx = get_index(ctx.env)
+    fi = idx.func("ParserException.__init__")
+    param = fi.node.args.args[1].arg
+    SAFE = {"args", "__class__", "__name__", "__traceback__", "__cause__", "__context__", "with_traceback", "add_note"}
+    risky = sorted({n.attr for n in ast.walk(fi.node) if isinstance(n, ast.Attribute) and isinstance(n.value, ast.Name) and n.value.id == param and n.attr not in SAFE})
+    calls = [U(n)[:50] for n in ast.walk(fi.node) if isinstance(n, ast.Call) and not (isinstance(n.func, ast.Name) and n.func.id in ("str", "type", "repr", "isinstance", "getattr", "hasattr"))
+             and any(isinstance(x, ast.Name) and x.id == param for x in ast.walk(n))]
+    guarded = any(isinstance(n, ast.Try) for n in ast.walk(fi.node))
+    ctx.check("the failure record is built from what every exception has", (not risky and not calls) or guarded, "type name / str / args of the exception only",
+              f"reads {risky} / calls {calls} of the caught exception: lark's exception classes do not share these (UnexpectedCharacters has no `expected`)", fn_where(idx, fi))
 
 
 def comps_target(fn, lc):
